@@ -42,11 +42,11 @@ META = {
         "and synthesis is C02's / C04's",
     ],
     "assumptions": [
-        "signature trees enumerated: depth <= 2 quick / 3 thorough, <= 2 members per level from the listed pool, dimensions () (2,) (2,1)",
+        "signature trees enumerated: depth <= 3 quick / 4 thorough, <= 2 members per level from the listed pool, dimensions () (2,) (2,1)",
         "tuples: 2 and 3 interfaces, all argument orders",
         "closed (structural) obligations are exhaustive over the enumerated trees, not a proof over all trees",
     ],
-    "bounds": {"quick": {"depth": 2}, "thorough": {"depth": 3}},
+    "bounds": {"quick": {"depth": 3}, "thorough": {"depth": 4}},
     "explanation": "structure enumerated, leaf values universally quantified; connect() data flow through the reference statement semantics",
 }
 
@@ -99,6 +99,13 @@ def trees(depth):
             cur.append((("s", "o", "s", sub, ()), ("t", "i", "s", sub, ())))
         out += cur
         prev = cur
+    if depth >= 3:
+        # paths whose tails repeat at different depths (a.b.c next to b.c, s.s.a next to s.a)
+        leaf = ("c", "o", "p", ("u2", 1), ())
+        leaf_i = ("c", "i", "p", ("u2", 1), ())
+        out.append((("a", "o", "s", (("b", "o", "s", (leaf,), ()),), ()), ("b", "o", "s", (leaf,), ())))
+        out.append((("a", "i", "s", (("b", "i", "s", (leaf_i,), ()),), ()), ("b", "o", "s", (leaf_i,), ())))
+        out.append((("s", "o", "s", (("s", "i", "s", (("s", "o", "p", ("s3", -2), (2,)),), ()),), ()),))
     return out
 
 
